@@ -1,5 +1,5 @@
-\* exhaustive: 2 CIDs, 2 pin workers, 5 operations
-CONSTANTS CIDS = {"c1", "c2"} MaxOps = 5 K0 = 2 Q0 = 1 Level0 = "tracker" Strict = TRUE Lag = FALSE
+\* exhaustive: 2 CIDs, 2 pin workers, 3 operations
+CONSTANTS CIDS = {"c1", "c2"} MaxOps = 3 K0 = 2 Q0 = 1 Level0 = "tracker" Strict = TRUE Lag = FALSE
 INIT Init
-NEXT Next
-INVARIANTS TypeOK TableCid OneLivePerCid LiveIsTracked ReplacedIsCancelled CleanOnlyOwn CleanOnlyDone ErrorSticky PhaseForward FullQueueIsError QueueBound WorkerBound
+NEXT TrackerNext
+INVARIANTS TypeOK TableCid OneLivePerCid LiveIsTracked ReplacedIsCancelled CleanOnlyOwn CleanOnlyDone ErrorSticky PhaseForward FullQueueIsError FullQueueShowsError QueueBound WorkerBound
